@@ -13,6 +13,7 @@ import (
 	"encoding/json"
 	"fmt"
 	"math/rand"
+	"regexp"
 	"sort"
 	"strings"
 	"time"
@@ -72,24 +73,28 @@ type Config struct {
 	KavadistActive  bool
 	StakingRewards  string // community staking rewards per second
 	IssuanceLimited bool
+	// Wide, when set, widens the genesis (see config.go); nil reproduces the narrow legacy genesis.
+	Wide *WideConfig `json:"wide,omitempty"`
 }
 
 func RandomConfig(r *Rng) Config {
 	pick := func(xs ...string) string { return xs[r.Intn(len(xs))] }
-	return Config{
-		LiqRatioBnb:     pick("1.5", "2.0", "1.25", "1.333333333333333333"),
-		LiqRatioXrp:     pick("1.5", "1.75", "2.25"),
-		SwapFee:         pick("0.003", "0", "0.0015", "0.01"),
-		StabilityFee:    pick("1.000000001547125958", "1.0", "1.000000004431822130", "1.000000000782997"),
+	cfg := Config{
+		LiqRatioBnb:     pick("1.5", "2.0", "1.25", "1.333333333333333333", "1.000000000000000001", "4.0"),
+		LiqRatioXrp:     pick("1.5", "1.75", "2.25", "1.1"),
+		SwapFee:         pick("0.003", "0", "0.0015", "0.01", "0.3", "0.9", "0.999999999999999999"),
+		StabilityFee:    pick("1.000000001547125958", "1.0", "1.000000004431822130", "1.000000000782997", "1.000000012857214317", "1.000000051034942716"),
 		BnbPrice:        pick("5.0", "12.5", "3.333333333333333333", "0.5"),
 		XrpPrice:        pick("0.25", "0.5", "1.0", "0.337"),
 		KavaPrice:       pick("2.0", "0.75", "1.234567890123456789"),
 		HardLTV:         pick("0.6", "0.5", "0.8"),
 		ReserveFactor:   pick("0.05", "0.0", "0.25"),
-		KavadistActive:  r.Chance(1, 2),
-		StakingRewards:  pick("0", "744191", "1000.5"),
+		KavadistActive:  r.Chance(2, 3),
+		StakingRewards:  pick("0", "744191", "1000.5", "0.000000000000000001", "25000000"),
 		IssuanceLimited: r.Chance(1, 2),
 	}
+	cfg.Wide = randomWide(r, &cfg)
+	return cfg
 }
 
 // World is the generator-side view of one chain: keys, addresses and the
@@ -113,6 +118,11 @@ type World struct {
 	Counters       *Counters
 	memoN          int
 	basicValidOnly bool
+	// ParamChanges makes the generator submit (and vote through) committee parameter-change
+	// proposals for cdp, hard, incentive, pricefeed, auction, swap, kavadist and bep3 with VALID
+	// values (the resulting full parameter set passes the module's Params.Validate).  Off by
+	// default: the C01 / C14 drivers keep their transaction mix.
+	ParamChanges bool
 }
 
 type bep3Swap struct {
@@ -146,6 +156,8 @@ func NewWorld(cfg Config, seed uint64, cnt *Counters) *World {
 // BuildGenesis returns the genesis state for a given (fresh) app's codec.
 func (w *World) BuildGenesis(cdc codec.JSONCodec) app.GenesisState {
 	cfg := w.Cfg
+	wd := cfg.Wide
+	at := func(sec int64) time.Time { return Genesis0.Add(time.Duration(sec) * time.Second) }
 	gs := app.GenesisState{}
 	// ---- auth + bank
 	ab := app.NewAuthBankGenesisBuilder()
@@ -190,6 +202,10 @@ func (w *World) BuildGenesis(cdc codec.JSONCodec) app.GenesisState {
 			post("bnb:usd", cfg.BnbPrice), post("xrp:usd", cfg.XrpPrice), post("kava:usd", cfg.KavaPrice), post("usdx:usd", "1.0"), post("busd:usd", "1.0"),
 		},
 	}
+	if wd != nil {
+		pf.Params.Markets = append(pf.Params.Markets, mk("hard:usd", "hard"), mk("swp:usd", "swp"))
+		pf.PostedPrices = append(pf.PostedPrices, post("hard:usd", "0.25"), post("swp:usd", "0.1"))
+	}
 	gs[pricefeedtypes.ModuleName] = cdc.MustMarshalJSON(&pf)
 	// ---- cdp
 	cp := func(denom, ctype, ratio, market string, cf int64) cdptypes.CollateralParam {
@@ -200,23 +216,49 @@ func (w *World) BuildGenesis(cdc codec.JSONCodec) app.GenesisState {
 			CheckCollateralizationIndexCount: sdkmath.NewInt(10), ConversionFactor: sdkmath.NewInt(cf),
 		}
 	}
+	cdpParams := cdptypes.Params{
+		GlobalDebtLimit: c("usdx", 2_000_000_000_000), SurplusAuctionThreshold: cdptypes.DefaultSurplusThreshold,
+		SurplusAuctionLot: cdptypes.DefaultSurplusLot, DebtAuctionThreshold: cdptypes.DefaultDebtThreshold,
+		DebtAuctionLot: cdptypes.DefaultDebtLot, LiquidationBlockInterval: 1,
+		CollateralParams: cdptypes.CollateralParams{cp("bnb", "bnb-a", cfg.LiqRatioBnb, "bnb:usd", 8), cp("xrp", "xrp-a", cfg.LiqRatioXrp, "xrp:usd", 6)},
+		DebtParam:        cdptypes.DebtParam{Denom: "usdx", ReferenceAsset: "usd", ConversionFactor: sdkmath.NewInt(6), DebtFloor: sdkmath.NewInt(10_000_000)},
+	}
+	if wd != nil {
+		cdpParams.CollateralParams = nil
+		total := int64(0)
+		for _, cc := range wd.Collaterals {
+			ratio, fee := cc.LiqRatio, cc.StabilityFee
+			switch cc.Type { // the legacy fields stay authoritative for the two legacy types
+			case "bnb-a":
+				ratio, fee = cfg.LiqRatioBnb, cfg.StabilityFee
+			case "xrp-a":
+				ratio, fee = cfg.LiqRatioXrp, cfg.StabilityFee
+			}
+			cdpParams.CollateralParams = append(cdpParams.CollateralParams, cdptypes.CollateralParam{
+				Denom: cc.Denom, Type: cc.Type, LiquidationRatio: d(ratio), DebtLimit: c("usdx", cc.DebtLimit),
+				StabilityFee: d(fee), LiquidationPenalty: d(cc.Penalty), AuctionSize: sdkmath.NewInt(cc.AuctionSize),
+				SpotMarketID: cc.Market, LiquidationMarketID: cc.Market, KeeperRewardPercentage: d(cc.KeeperReward),
+				CheckCollateralizationIndexCount: sdkmath.NewInt(cc.CheckCount), ConversionFactor: sdkmath.NewInt(cc.ConvFactor),
+			})
+			total += cc.DebtLimit
+		}
+		cdpParams.GlobalDebtLimit = c("usdx", total+int64(len(wd.Collaterals)))
+		cdpParams.SurplusAuctionThreshold, cdpParams.SurplusAuctionLot = sdkmath.NewInt(wd.SurplusThreshold), sdkmath.NewInt(wd.SurplusLot)
+		cdpParams.DebtAuctionThreshold, cdpParams.DebtAuctionLot = sdkmath.NewInt(wd.DebtThreshold), sdkmath.NewInt(wd.DebtLot)
+		cdpParams.LiquidationBlockInterval = wd.LiqInterval
+		cdpParams.DebtParam.DebtFloor = sdkmath.NewInt(wd.DebtFloor)
+	}
+	if err := cdpParams.Validate(); err != nil {
+		panic("world: generated cdp params invalid: " + err.Error())
+	}
 	cdpGen := cdptypes.GenesisState{
-		Params: cdptypes.Params{
-			GlobalDebtLimit: c("usdx", 2_000_000_000_000), SurplusAuctionThreshold: cdptypes.DefaultSurplusThreshold,
-			SurplusAuctionLot: cdptypes.DefaultSurplusLot, DebtAuctionThreshold: cdptypes.DefaultDebtThreshold,
-			DebtAuctionLot: cdptypes.DefaultDebtLot, LiquidationBlockInterval: 1,
-			CollateralParams: cdptypes.CollateralParams{cp("bnb", "bnb-a", cfg.LiqRatioBnb, "bnb:usd", 8), cp("xrp", "xrp-a", cfg.LiqRatioXrp, "xrp:usd", 6)},
-			DebtParam:        cdptypes.DebtParam{Denom: "usdx", ReferenceAsset: "usd", ConversionFactor: sdkmath.NewInt(6), DebtFloor: sdkmath.NewInt(10_000_000)},
-		},
+		Params:        cdpParams,
 		StartingCdpID: cdptypes.DefaultCdpStartingID, DebtDenom: cdptypes.DefaultDebtDenom, GovDenom: cdptypes.DefaultGovDenom,
 		CDPs: cdptypes.CDPs{},
-		PreviousAccumulationTimes: cdptypes.GenesisAccumulationTimes{
-			cdptypes.NewGenesisAccumulationTime("bnb-a", time.Time{}, sdk.OneDec()),
-			cdptypes.NewGenesisAccumulationTime("xrp-a", time.Time{}, sdk.OneDec()),
-		},
-		TotalPrincipals: cdptypes.GenesisTotalPrincipals{
-			cdptypes.NewGenesisTotalPrincipal("bnb-a", sdk.ZeroInt()), cdptypes.NewGenesisTotalPrincipal("xrp-a", sdk.ZeroInt()),
-		},
+	}
+	for _, p := range cdpParams.CollateralParams {
+		cdpGen.PreviousAccumulationTimes = append(cdpGen.PreviousAccumulationTimes, cdptypes.NewGenesisAccumulationTime(p.Type, time.Time{}, sdk.OneDec()))
+		cdpGen.TotalPrincipals = append(cdpGen.TotalPrincipals, cdptypes.NewGenesisTotalPrincipal(p.Type, sdk.ZeroInt()))
 	}
 	gs[cdptypes.ModuleName] = cdc.MustMarshalJSON(&cdpGen)
 	// ---- hard
@@ -227,14 +269,37 @@ func (w *World) BuildGenesis(cdc codec.JSONCodec) app.GenesisState {
 	hardGen := hardtypes.DefaultGenesisState()
 	hardGen.Params.MoneyMarkets = hardtypes.MoneyMarkets{mm("usdx", "usdx:usd", 1e6), mm("bnb", "bnb:usd", 1e8), mm("ukava", "kava:usd", 1e6), mm("busd", "busd:usd", 1e8)}
 	hardGen.Params.MinimumBorrowUSDValue = d("0.000001")
+	if wd != nil {
+		hardGen.Params.MoneyMarkets = nil
+		for _, m := range wd.HardMarkets {
+			hardGen.Params.MoneyMarkets = append(hardGen.Params.MoneyMarkets, w.MoneyMarket(m))
+		}
+		hardGen.Params.MinimumBorrowUSDValue = d(wd.MinBorrowUSD)
+	}
+	if err := hardGen.Params.Validate(); err != nil {
+		panic("world: generated hard params invalid: " + err.Error())
+	}
 	gs[hardtypes.ModuleName] = cdc.MustMarshalJSON(&hardGen)
 	// ---- swap
 	swapGen := swaptypes.DefaultGenesisState()
-	swapGen.Params = swaptypes.NewParams(swaptypes.AllowedPools{swaptypes.NewAllowedPool("bnb", "usdx"), swaptypes.NewAllowedPool("ukava", "usdx")}, d(cfg.SwapFee))
+	pools := swaptypes.AllowedPools{swaptypes.NewAllowedPool("bnb", "usdx"), swaptypes.NewAllowedPool("ukava", "usdx")}
+	if wd != nil {
+		pools = nil
+		for _, p := range wd.SwapPools {
+			pools = append(pools, swaptypes.NewAllowedPool(p[0], p[1]))
+		}
+	}
+	swapGen.Params = swaptypes.NewParams(pools, d(cfg.SwapFee))
+	if err := swapGen.Params.Validate(); err != nil {
+		panic("world: generated swap params invalid: " + err.Error())
+	}
 	gs[swaptypes.ModuleName] = cdc.MustMarshalJSON(&swapGen)
 	// ---- savings
 	savGen := savingstypes.DefaultGenesisState()
 	savGen.Params.SupportedDenoms = []string{"ukava", "bkava", "busd"}
+	if wd != nil {
+		savGen.Params.SupportedDenoms = wd.SavingsDenoms
+	}
 	gs[savingstypes.ModuleName] = cdc.MustMarshalJSON(&savGen)
 	// ---- earn
 	earnGen := earntypes.DefaultGenesisState()
@@ -243,46 +308,102 @@ func (w *World) BuildGenesis(cdc codec.JSONCodec) app.GenesisState {
 		earntypes.NewAllowedVault("bkava", earntypes.StrategyTypes{earntypes.STRATEGY_TYPE_SAVINGS}, false, nil),
 		earntypes.NewAllowedVault("busd", earntypes.StrategyTypes{earntypes.STRATEGY_TYPE_SAVINGS}, false, nil),
 	}
+	if wd != nil {
+		earnGen.Params.AllowedVaults = nil
+		for _, v := range w.EarnVaults() {
+			var dep []sdk.AccAddress
+			if v.Private {
+				dep = []sdk.AccAddress{w.Addrs[0], w.Addrs[2]}
+			}
+			earnGen.Params.AllowedVaults = append(earnGen.Params.AllowedVaults, earntypes.NewAllowedVault(v.Denom, earntypes.StrategyTypes{v.Strategy}, v.Private, dep))
+		}
+	}
+	if err := earnGen.Params.Validate(); err != nil {
+		panic("world: generated earn params invalid: " + err.Error())
+	}
 	gs[earntypes.ModuleName] = cdc.MustMarshalJSON(&earnGen)
 	// ---- bep3
+	asset := bep3types.AssetParam{
+		Denom: "bnb", CoinID: 714,
+		SupplyLimit: bep3types.SupplyLimit{Limit: sdkmath.NewInt(350_000_000_000_000), TimeLimited: true, TimeBasedLimit: sdkmath.NewInt(50_000_000_000), TimePeriod: time.Hour},
+		Active:      true, DeputyAddress: w.Addrs[w.Deputy], FixedFee: sdkmath.NewInt(1000), MinSwapAmount: sdkmath.NewInt(1001),
+		MaxSwapAmount: sdkmath.NewInt(1_000_000_000_000), MinBlockLock: 3, MaxBlockLock: 12,
+	}
+	if wd != nil {
+		b := wd.Bep3
+		asset.SupplyLimit = bep3types.SupplyLimit{Limit: sdkmath.NewInt(b.Limit), TimeLimited: b.TimeLimited, TimeBasedLimit: sdkmath.NewInt(b.TimeLimit), TimePeriod: time.Duration(b.PeriodSec) * time.Second}
+		asset.FixedFee, asset.MinSwapAmount, asset.MaxSwapAmount = sdkmath.NewInt(b.FixedFee), sdkmath.NewInt(b.MinSwap), sdkmath.NewInt(b.MaxSwap)
+		asset.MinBlockLock, asset.MaxBlockLock = b.MinLock, b.MaxLock
+	}
 	bep3Gen := bep3types.GenesisState{
-		Params: bep3types.Params{AssetParams: bep3types.AssetParams{{
-			Denom: "bnb", CoinID: 714,
-			SupplyLimit: bep3types.SupplyLimit{Limit: sdkmath.NewInt(350_000_000_000_000), TimeLimited: true, TimeBasedLimit: sdkmath.NewInt(50_000_000_000), TimePeriod: time.Hour},
-			Active:      true, DeputyAddress: w.Addrs[w.Deputy], FixedFee: sdkmath.NewInt(1000), MinSwapAmount: sdkmath.NewInt(1001),
-			MaxSwapAmount: sdkmath.NewInt(1_000_000_000_000), MinBlockLock: 3, MaxBlockLock: 12,
-		}}},
+		Params:            bep3types.Params{AssetParams: bep3types.AssetParams{asset}},
 		Supplies:          bep3types.AssetSupplies{bep3types.NewAssetSupply(c("bnb", 0), c("bnb", 0), c("bnb", 0), c("bnb", 0), time.Duration(0))},
 		PreviousBlockTime: bep3types.DefaultPreviousBlockTime,
 	}
+	if err := bep3Gen.Params.Validate(); err != nil {
+		panic("world: generated bep3 params invalid: " + err.Error())
+	}
 	gs[bep3types.ModuleName] = cdc.MustMarshalJSON(&bep3Gen)
 	// ---- incentive
-	rpStart, rpEnd := Genesis0.Add(10*time.Minute), Genesis0.Add(400*24*time.Hour)
-	mrp := func(ctype string, coins ...sdk.Coin) incentivetypes.MultiRewardPeriod {
-		return incentivetypes.NewMultiRewardPeriod(true, ctype, rpStart, rpEnd, cs(coins...))
+	rpStart := Genesis0.Add(10 * time.Minute)
+	rpEnds := make([]time.Time, 7)
+	for i := range rpEnds {
+		rpEnds[i] = Genesis0.Add(400 * 24 * time.Hour)
+	}
+	claimEnd := Genesis0.Add(500 * 24 * time.Hour)
+	if wd != nil {
+		rpStart = at(wd.IncentiveStart)
+		for i := range rpEnds {
+			rpEnds[i] = at(wd.IncentiveEnds[i])
+		}
+		claimEnd = at(wd.ClaimEndSec)
+	}
+	mrp := func(class int, ctype string, coins ...sdk.Coin) incentivetypes.MultiRewardPeriod {
+		return incentivetypes.NewMultiRewardPeriod(true, ctype, rpStart, rpEnds[class], cs(coins...))
 	}
 	mult := incentivetypes.MultipliersPerDenoms{
 		{Denom: "hard", Multipliers: incentivetypes.Multipliers{incentivetypes.NewMultiplier("small", 1, d("0.25")), incentivetypes.NewMultiplier("large", 12, d("1.0"))}},
 		{Denom: "swp", Multipliers: incentivetypes.Multipliers{incentivetypes.NewMultiplier("small", 1, d("0.25")), incentivetypes.NewMultiplier("large", 12, d("1.0"))}},
 		{Denom: "ukava", Multipliers: incentivetypes.Multipliers{incentivetypes.NewMultiplier("small", 1, d("0.2")), incentivetypes.NewMultiplier("large", 12, d("1.0"))}},
 	}
+	usdxPeriods := incentivetypes.RewardPeriods{incentivetypes.NewRewardPeriod(true, "bnb-a", rpStart, rpEnds[0], c("ukava", 122354))}
+	if wd != nil {
+		for i, cc := range wd.Collaterals {
+			if cc.Type != "bnb-a" && i%2 == 0 {
+				usdxPeriods = append(usdxPeriods, incentivetypes.NewRewardPeriod(true, cc.Type, rpStart, rpEnds[0], c("ukava", 9973)))
+			}
+		}
+	}
 	incParams := incentivetypes.NewParams(
-		incentivetypes.RewardPeriods{incentivetypes.NewRewardPeriod(true, "bnb-a", rpStart, rpEnd, c("ukava", 122354))},
-		incentivetypes.MultiRewardPeriods{mrp("bnb", c("hard", 31234)), mrp("usdx", c("hard", 1000), c("swp", 77))},
-		incentivetypes.MultiRewardPeriods{mrp("usdx", c("hard", 5321))},
-		incentivetypes.MultiRewardPeriods{mrp("ukava", c("hard", 2111), c("swp", 9))},
-		incentivetypes.MultiRewardPeriods{mrp("bnb:usdx", c("swp", 44123))},
-		incentivetypes.MultiRewardPeriods{mrp("busd", c("hard", 17))},
-		incentivetypes.MultiRewardPeriods{mrp("usdx", c("hard", 901))},
-		mult, Genesis0.Add(500*24*time.Hour),
+		usdxPeriods,
+		incentivetypes.MultiRewardPeriods{mrp(1, "bnb", c("hard", 31234)), mrp(1, "usdx", c("hard", 1000), c("swp", 77))},
+		incentivetypes.MultiRewardPeriods{mrp(2, "usdx", c("hard", 5321))},
+		incentivetypes.MultiRewardPeriods{mrp(3, "ukava", c("hard", 2111), c("swp", 9))},
+		incentivetypes.MultiRewardPeriods{mrp(4, "bnb:usdx", c("swp", 44123))},
+		incentivetypes.MultiRewardPeriods{mrp(5, "busd", c("hard", 17))},
+		incentivetypes.MultiRewardPeriods{mrp(6, "usdx", c("hard", 901))},
+		mult, claimEnd,
 	)
+	if err := incParams.Validate(); err != nil {
+		panic("world: generated incentive params invalid: " + err.Error())
+	}
 	incGen := incentivetypes.DefaultGenesisState()
 	incGen.Params = incParams
 	gs[incentivetypes.ModuleName] = cdc.MustMarshalJSON(&incGen)
-	// ---- committee: a member committee that may change cdp / hard params, FPTP
+	// ---- committee: a member committee that may change cdp / hard params, FPTP; a second one that
+	// proposals may delete or change (a proposal valid at submission can fail at enactment)
+	propDur := 7 * 24 * time.Hour
+	if wd != nil {
+		propDur = time.Duration(wd.ProposalDurSec) * time.Second
+	}
 	com := committeetypes.MustNewMemberCommittee(1, "params committee", []sdk.AccAddress{w.Addrs[w.Member], w.Addrs[0]},
-		[]committeetypes.Permission{&committeetypes.GodPermission{}}, d("0.5"), 7*24*time.Hour, committeetypes.TALLY_OPTION_FIRST_PAST_THE_POST)
-	comGen := committeetypes.NewGenesisState(1, []committeetypes.Committee{com}, committeetypes.Proposals{}, []committeetypes.Vote{})
+		[]committeetypes.Permission{&committeetypes.GodPermission{}}, d("0.5"), propDur, committeetypes.TALLY_OPTION_FIRST_PAST_THE_POST)
+	coms := []committeetypes.Committee{com}
+	if wd != nil {
+		coms = append(coms, committeetypes.MustNewMemberCommittee(2, "text committee", []sdk.AccAddress{w.Addrs[1], w.Addrs[2], w.Addrs[3]},
+			[]committeetypes.Permission{&committeetypes.TextPermission{}}, d("0.667"), propDur, committeetypes.TALLY_OPTION_DEADLINE))
+	}
+	comGen := committeetypes.NewGenesisState(1, coms, committeetypes.Proposals{}, []committeetypes.Vote{})
 	gs[committeetypes.ModuleName] = cdc.MustMarshalJSON(comGen)
 	// ---- kavadist
 	kdGen := kavadisttypes.DefaultGenesisState()
@@ -293,6 +414,26 @@ func (w *World) BuildGenesis(cdc codec.JSONCodec) app.GenesisState {
 		},
 		InfrastructureParams: kavadisttypes.DefaultInfraParams,
 	}
+	if wd != nil {
+		kdGen.Params.Periods = nil
+		for _, p := range wd.KavadistPeriods {
+			kdGen.Params.Periods = append(kdGen.Params.Periods, kavadisttypes.Period{Start: at(p.StartSec), End: at(p.EndSec), Inflation: d(p.Inflation)})
+		}
+		var infra kavadisttypes.InfrastructureParams
+		for _, p := range wd.InfraPeriods {
+			infra.InfrastructurePeriods = append(infra.InfrastructurePeriods, kavadisttypes.Period{Start: at(p.StartSec), End: at(p.EndSec), Inflation: d(p.Inflation)})
+		}
+		for i, rate := range wd.PartnerRates {
+			infra.PartnerRewards = append(infra.PartnerRewards, kavadisttypes.NewPartnerReward(w.Addrs[2+i], c("ukava", rate)))
+		}
+		for i, wt := range wd.CoreWeights {
+			infra.CoreRewards = append(infra.CoreRewards, kavadisttypes.NewCoreReward(w.Addrs[(4+i)%NUsers], d(wt)))
+		}
+		kdGen.Params.InfrastructureParams = infra
+	}
+	if err := kdGen.Params.Validate(); err != nil {
+		panic("world: generated kavadist params invalid: " + err.Error())
+	}
 	kdGen.PreviousBlockTime = Genesis0
 	gs[kavadisttypes.ModuleName] = cdc.MustMarshalJSON(kdGen)
 	// ---- community
@@ -300,6 +441,13 @@ func (w *World) BuildGenesis(cdc codec.JSONCodec) app.GenesisState {
 	comm.Params.UpgradeTimeDisableInflation = Genesis0.Add(6 * time.Hour)
 	comm.Params.StakingRewardsPerSecond = d(cfg.StakingRewards)
 	comm.Params.UpgradeTimeSetStakingRewardsPerSecond = d("500.25")
+	if wd != nil {
+		comm.Params.UpgradeTimeDisableInflation = at(wd.DisableInflSec)
+		comm.Params.UpgradeTimeSetStakingRewardsPerSecond = d(wd.UpgradeStakingRw)
+	}
+	if err := comm.Params.Validate(); err != nil {
+		panic("world: generated community params invalid: " + err.Error())
+	}
 	gs[communitytypes.ModuleName] = cdc.MustMarshalJSON(&comm)
 	// ---- issuance
 	issGen := issuancetypes.DefaultGenesisState()
@@ -317,9 +465,91 @@ func (w *World) BuildGenesis(cdc codec.JSONCodec) app.GenesisState {
 	aucGen.Params.ForwardBidDuration = 20 * time.Minute
 	aucGen.Params.ReverseBidDuration = 10 * time.Minute
 	aucGen.Params.MaxAuctionDuration = 2 * time.Hour
+	if wd != nil {
+		aucGen.Params.ForwardBidDuration = time.Duration(wd.AuctionFwdSec) * time.Second
+		aucGen.Params.ReverseBidDuration = time.Duration(wd.AuctionRevSec) * time.Second
+		aucGen.Params.MaxAuctionDuration = time.Duration(wd.AuctionMaxSec) * time.Second
+		aucGen.Params.IncrementSurplus, aucGen.Params.IncrementDebt, aucGen.Params.IncrementCollateral = d(wd.IncSurplus), d(wd.IncDebt), d(wd.IncCollateral)
+	}
+	if err := aucGen.Params.Validate(); err != nil {
+		panic("world: generated auction params invalid: " + err.Error())
+	}
 	gs[auctiontypes.ModuleName] = cdc.MustMarshalJSON(aucGen)
 	w.GenState = gs
 	return gs
+}
+
+// MoneyMarket builds the hard money market of a market configuration (empty LTV / reserve
+// factor fall back to the legacy common fields).
+func (w *World) MoneyMarket(m MarketCfg) hardtypes.MoneyMarket {
+	ltv, rf := m.LTV, m.ReserveFactor
+	if ltv == "" {
+		ltv = w.Cfg.HardLTV
+	}
+	if rf == "" {
+		rf = w.Cfg.ReserveFactor
+	}
+	return hardtypes.NewMoneyMarket(m.Denom, hardtypes.NewBorrowLimit(m.HasMaxLimit, d(m.MaxLimitUSD), d(ltv)), m.Market, sdkmath.NewInt(m.ConvFactor),
+		hardtypes.NewInterestRateModel(d(m.IRM[0]), d(m.IRM[1]), d(m.IRM[2]), d(m.IRM[3])), d(rf), d(m.KeeperReward))
+}
+
+// VaultCfg is one earn vault of the configuration.
+type VaultCfg struct {
+	Denom    string
+	Strategy earntypes.StrategyType
+	Private  bool
+}
+
+// EarnVaults decodes the configured earn vault set.
+func (w *World) EarnVaults() []VaultCfg {
+	names := []string{"usdx:hard", "bkava:savings", "busd:savings"}
+	if w.Cfg.Wide != nil {
+		names = w.Cfg.Wide.EarnVaults
+	}
+	var out []VaultCfg
+	for _, n := range names {
+		p := strings.Split(n, ":")
+		v := VaultCfg{Denom: p[0], Strategy: earntypes.STRATEGY_TYPE_HARD, Private: len(p) > 2}
+		if p[1] == "savings" {
+			v.Strategy = earntypes.STRATEGY_TYPE_SAVINGS
+		}
+		out = append(out, v)
+	}
+	return out
+}
+
+// CollateralTypes returns the configured (collateral type, denom) pairs.
+func (w *World) CollateralTypes() (types []string, denomOf map[string]string) {
+	denomOf = map[string]string{"bnb-a": "bnb", "xrp-a": "xrp"}
+	types = []string{"bnb-a", "xrp-a"}
+	if w.Cfg.Wide != nil {
+		types, denomOf = nil, map[string]string{}
+		for _, cc := range w.Cfg.Wide.Collaterals {
+			types = append(types, cc.Type)
+			denomOf[cc.Type] = cc.Denom
+		}
+	}
+	return
+}
+
+// HardDenoms returns the denoms of the configured hard money markets.
+func (w *World) HardDenoms() []string {
+	if w.Cfg.Wide == nil {
+		return []string{"usdx", "bnb", "ukava", "busd"}
+	}
+	var out []string
+	for _, m := range w.Cfg.Wide.HardMarkets {
+		out = append(out, m.Denom)
+	}
+	return out
+}
+
+// SwapPools returns the configured swap pools.
+func (w *World) SwapPools() [][2]string {
+	if w.Cfg.Wide == nil {
+		return [][2]string{{"bnb", "usdx"}, {"ukava", "usdx"}}
+	}
+	return w.Cfg.Wide.SwapPools
 }
 
 // GenesisBytes returns the complete genesis (all modules, with one validator) as JSON.
@@ -434,25 +664,90 @@ func (w *World) GenTx(r *Rng, tApp app.TestApp, used map[int]bool) ([]byte, stri
 	other := w.Addrs[(u+1+r.Intn(NUsers-1))%NUsers]
 	ctx := tApp.NewContext(false, tmproto.Header{Height: w.Height, Time: w.Time})
 	dl := w.Time.Add(time.Hour).Unix()
-	ctypes := []string{"bnb-a", "xrp-a"}
-	cdenom := map[string]string{"bnb-a": "bnb", "xrp-a": "xrp"}
-	ct := ctypes[r.Intn(2)]
+	ctypes, cdenom := w.CollateralTypes()
+	ct := ctypes[r.Intn(len(ctypes))]
+	hardDenoms := w.HardDenoms()
+	hdn := func() string { return hardDenoms[r.Intn(len(hardDenoms))] }
+	pools := w.SwapPools()
 	var msg sdk.Msg
 	var desc string
-	kind := r.Pick(6, 10, 4, 4, 5, 5, 3, 8, 5, 5, 4, 6, 4, 3, 3, 4, 4, 3, 3, 3, 3, 3, 2, 2, 3, 2)
+	// prefer positions that exist: the user's own CDP type for cdp messages
+	var myCdps, allCdps cdptypes.CDPs
+	cdpsLoaded := false
+	loadCdps := func() {
+		if cdpsLoaded {
+			return
+		}
+		cdpsLoaded = true
+		allCdps = tApp.GetCDPKeeper().GetAllCdps(ctx)
+		for _, x := range allCdps {
+			if x.Owner.Equals(A) {
+				myCdps = append(myCdps, x)
+			}
+		}
+	}
+	ownCt := func() {
+		loadCdps()
+		if len(myCdps) > 0 && r.Chance(4, 5) {
+			ct = myCdps[r.Intn(len(myCdps))].Type
+		}
+	}
+	cdpOwner := func() sdk.AccAddress { // owner of the CDP to deposit to / withdraw from
+		loadCdps()
+		if r.Chance(2, 3) || len(allCdps) == 0 {
+			ownCt()
+			return A
+		}
+		x := allCdps[r.Intn(len(allCdps))]
+		ct = x.Type
+		return x.Owner
+	}
+	kind := r.Pick(6, 10, 4, 4, 5, 5, 3, 8, 8, 5, 4, 6, 4, 3, 3, 4, 4, 3, 4, 8, 3, 3, 2, 2, 4, 2)
+	if w.ParamChanges && r.Chance(1, 14) {
+		delete(used, u)
+		return w.genParamChange(r, tApp, ctx, used)
+	}
 	switch kind {
 	case 0:
 		m := banktypes.NewMsgSend(A, other, cs(c([]string{"ukava", "bnb", "usdx", "xrp"}[r.Intn(4)], amt(r, 1_000_000_000))))
 		msg, desc = m, "bank.send"
 	case 1:
-		col := amt(r, 20_000_000_000)
-		m := cdptypes.NewMsgCreateCDP(A, c(cdenom[ct], col), c("usdx", 10_000_000+amt(r, 2_000_000_000)), ct)
+		bal := tApp.GetBankKeeper().GetBalance(ctx, A, cdenom[ct]).Amount
+		max := int64(20_000_000_000)
+		if bal.IsInt64() && bal.Int64() > 0 && bal.Int64() < max {
+			max = bal.Int64()
+		}
+		col := amt(r, max)
+		floor := tApp.GetCDPKeeper().GetParams(ctx).DebtParam.DebtFloor.Int64()
+		debt := floor + amt(r, 2_000_000_000)
+		if r.Chance(1, 2) { // close to the liquidation boundary: a later price move liquidates it
+			if lim, ok := w.maxDebt(tApp, ctx, ct, col); ok {
+				debt = lim * int64(70+r.Intn(31)) / 100
+				if r.Chance(1, 4) {
+					debt = lim + int64(r.Intn(3)) - 1
+				}
+				if debt < floor && r.Chance(3, 4) {
+					debt = floor
+				}
+			}
+		}
+		if debt <= 0 {
+			debt = 1
+		}
+		m := cdptypes.NewMsgCreateCDP(A, c(cdenom[ct], col), c("usdx", debt), ct)
 		msg, desc = &m, "cdp.create"
 	case 2:
-		m := cdptypes.NewMsgDeposit(pickOwner(r, w, A), A, c(cdenom[ct], amt(r, 5_000_000_000)), ct)
+		owner := cdpOwner()
+		if r.Chance(1, 10) {
+			owner = pickOwner(r, w, A)
+		}
+		m := cdptypes.NewMsgDeposit(owner, A, c(cdenom[ct], amt(r, 5_000_000_000)), ct)
 		msg, desc = &m, "cdp.deposit"
 	case 3:
-		owner := pickOwner(r, w, A)
+		owner := cdpOwner()
+		if r.Chance(1, 10) {
+			owner = pickOwner(r, w, A)
+		}
 		a := amt(r, 5_000_000_000)
 		if cdp, ok := tApp.GetCDPKeeper().GetCdpByOwnerAndCollateralType(ctx, owner, ct); ok && r.Chance(1, 2) {
 			if dep, ok := tApp.GetCDPKeeper().GetDeposit(ctx, cdp.ID, A); ok {
@@ -465,9 +760,26 @@ func (w *World) GenTx(r *Rng, tApp app.TestApp, used map[int]bool) ([]byte, stri
 		m := cdptypes.NewMsgWithdraw(owner, A, c(cdenom[ct], a), ct)
 		msg, desc = &m, "cdp.withdraw"
 	case 4:
-		m := cdptypes.NewMsgDrawDebt(A, ct, c("usdx", amt(r, 1_000_000_000)))
+		ownCt()
+		a := amt(r, 1_000_000_000)
+		if cdp, ok := tApp.GetCDPKeeper().GetCdpByOwnerAndCollateralType(ctx, A, ct); ok && r.Chance(1, 2) {
+			if lim, ok := w.maxDebt(tApp, ctx, ct, cdp.Collateral.Amount.Int64()); ok { // up to the liquidation boundary
+				room := lim - cdp.GetTotalPrincipal().Amount.Int64()
+				if room > 0 {
+					a = room - int64(r.Intn(3))
+					if r.Chance(1, 2) {
+						a = 1 + r.Int63n(room)
+					}
+				}
+			}
+		}
+		if a <= 0 {
+			a = 1
+		}
+		m := cdptypes.NewMsgDrawDebt(A, ct, c("usdx", a))
 		msg, desc = &m, "cdp.draw"
 	case 5:
+		ownCt()
 		a := amt(r, 3_000_000_000)
 		if cdp, ok := tApp.GetCDPKeeper().GetCdpByOwnerAndCollateralType(ctx, A, ct); ok && r.Chance(1, 2) {
 			a = cdp.GetTotalPrincipal().Amount.Int64() + int64(r.Intn(3)) - 1 // exact debt, one less, one more
@@ -478,20 +790,76 @@ func (w *World) GenTx(r *Rng, tApp app.TestApp, used map[int]bool) ([]byte, stri
 		m := cdptypes.NewMsgRepayDebt(A, ct, c("usdx", a))
 		msg, desc = &m, "cdp.repay"
 	case 6:
-		m := cdptypes.NewMsgLiquidate(A, other, ct)
+		target, tct := other, ct
+		if cdps := tApp.GetCDPKeeper().GetAllCdps(ctx); len(cdps) > 0 && r.Chance(3, 4) { // an existing position
+			x := cdps[r.Intn(len(cdps))]
+			target, tct = x.Owner, x.Type
+		}
+		m := cdptypes.NewMsgLiquidate(A, target, tct)
 		msg, desc = &m, "cdp.liquidate"
 	case 7:
-		dn := []string{"usdx", "bnb", "ukava", "busd"}[r.Intn(4)]
+		dn := hdn()
 		m := hardtypes.NewMsgDeposit(A, cs(c(dn, amt(r, 5_000_000_000))))
 		msg, desc = &m, "hard.deposit"
 	case 8:
-		dn := []string{"usdx", "bnb", "ukava", "busd"}[r.Intn(4)]
-		m := hardtypes.NewMsgBorrow(A, cs(c(dn, amt(r, 2_000_000_000))))
+		dn := hdn()
+		if _, ok := tApp.GetHardKeeper().GetDeposit(ctx, A); !ok && r.Chance(4, 5) { // nothing to borrow against yet
+			m := hardtypes.NewMsgDeposit(A, cs(c(dn, amt(r, 5_000_000_000))))
+			msg, desc = &m, "hard.deposit"
+			break
+		}
+		a := amt(r, 2_000_000_000)
+		if r.Chance(1, 2) { // within the module's cash
+			cash := tApp.GetBankKeeper().GetBalance(ctx, tApp.GetAccountKeeper().GetModuleAddress(hardtypes.ModuleName), dn).Amount
+			if cash.IsInt64() && cash.Int64() > 0 {
+				a = 1 + r.Int63n(cash.Int64())
+				if r.Chance(1, 2) {
+					a = 1 + a/int64(1+r.Intn(50))
+				}
+			}
+		}
+		if r.Chance(3, 4) { // the largest amount the keeper would accept (bisection), then close to it: a price move makes it liquidatable
+			cctx, _ := ctx.CacheContext()
+			okAmt := func(x int64) bool {
+				if x <= 0 {
+					return false
+				}
+				ok := false
+				func() {
+					defer func() { _ = recover() }()
+					ok = tApp.GetHardKeeper().ValidateBorrow(cctx, A, cs(c(dn, x))) == nil
+				}()
+				return ok
+			}
+			lo, hi := int64(0), a
+			if okAmt(hi) {
+				lo = hi
+			} else {
+				for i := 0; i < 12 && hi-lo > 1; i++ {
+					mid := lo + (hi-lo)/2
+					if okAmt(mid) {
+						lo = mid
+					} else {
+						hi = mid
+					}
+				}
+			}
+			if lo > 0 {
+				a = lo
+				if r.Chance(1, 2) {
+					a = 1 + lo*int64(50+r.Intn(51))/100
+				}
+			}
+		}
+		m := hardtypes.NewMsgBorrow(A, cs(c(dn, a)))
 		msg, desc = &m, "hard.borrow"
 	case 9:
-		dn := []string{"usdx", "bnb", "ukava", "busd"}[r.Intn(4)]
+		dn := hdn()
 		if r.Chance(1, 2) {
 			a := amt(r, 5_000_000_000)
+			if dep, ok := tApp.GetHardKeeper().GetDeposit(ctx, A); ok && len(dep.Amount) > 0 && r.Chance(4, 5) { // a denom actually deposited
+				dn = dep.Amount[r.Intn(len(dep.Amount))].Denom
+			}
 			if dep, ok := tApp.GetHardKeeper().GetSyncedDeposit(ctx, A); ok && r.Chance(1, 2) && dep.Amount.AmountOf(dn).IsPositive() {
 				a = dep.Amount.AmountOf(dn).Int64() + int64(r.Intn(3)) - 1
 			}
@@ -502,6 +870,23 @@ func (w *World) GenTx(r *Rng, tApp app.TestApp, used map[int]bool) ([]byte, stri
 			msg, desc = &m, "hard.withdraw"
 		} else {
 			owner := pickOwner(r, w, A)
+			if r.Chance(4, 5) { // an existing borrow, preferably the signer's own
+				var bs []hardtypes.Borrow
+				tApp.GetHardKeeper().IterateBorrows(ctx, func(b hardtypes.Borrow) bool { bs = append(bs, b); return false })
+				for _, b := range bs {
+					if b.Borrower.Equals(A) && r.Chance(3, 4) {
+						bs = []hardtypes.Borrow{b}
+						break
+					}
+				}
+				if len(bs) > 0 {
+					b := bs[r.Intn(len(bs))]
+					owner = b.Borrower
+					if len(b.Amount) > 0 {
+						dn = b.Amount[r.Intn(len(b.Amount))].Denom
+					}
+				}
+			}
 			a := amt(r, 2_000_000_000)
 			if bor, ok := tApp.GetHardKeeper().GetSyncedBorrow(ctx, owner); ok && r.Chance(1, 2) && bor.Amount.AmountOf(dn).IsPositive() {
 				a = bor.Amount.AmountOf(dn).Int64() + int64(r.Intn(3)) - 1
@@ -513,14 +898,22 @@ func (w *World) GenTx(r *Rng, tApp app.TestApp, used map[int]bool) ([]byte, stri
 			msg, desc = &m, "hard.repay"
 		}
 	case 10:
-		m := hardtypes.NewMsgLiquidate(A, other)
+		target := other
+		if r.Chance(3, 4) { // an existing borrower
+			var bs []sdk.AccAddress
+			tApp.GetHardKeeper().IterateBorrows(ctx, func(b hardtypes.Borrow) bool { bs = append(bs, b.Borrower); return false })
+			if len(bs) > 0 {
+				target = bs[r.Intn(len(bs))]
+			}
+		}
+		m := hardtypes.NewMsgLiquidate(A, target)
 		msg, desc = &m, "hard.liquidate"
 	case 11:
-		pair := [][2]string{{"bnb", "usdx"}, {"ukava", "usdx"}}[r.Intn(2)]
+		pair := pools[r.Intn(len(pools))]
 		msg = swaptypes.NewMsgDeposit(A.String(), c(pair[0], amt(r, 2_000_000_000)), c(pair[1], amt(r, 2_000_000_000)), d([]string{"1.0", "0.5", "0.01"}[r.Intn(3)]), dl)
 		desc = "swap.deposit"
 	case 12:
-		pair := [][2]string{{"bnb", "usdx"}, {"ukava", "usdx"}}[r.Intn(2)]
+		pair := pools[r.Intn(len(pools))]
 		if r.Chance(1, 2) {
 			pair[0], pair[1] = pair[1], pair[0]
 		}
@@ -532,7 +925,7 @@ func (w *World) GenTx(r *Rng, tApp app.TestApp, used map[int]bool) ([]byte, stri
 			desc = "swap.forexact"
 		}
 	case 13:
-		pair := [][2]string{{"bnb", "usdx"}, {"ukava", "usdx"}}[r.Intn(2)]
+		pair := pools[r.Intn(len(pools))]
 		sh := sdkmath.NewInt(amt(r, 1_000_000_000))
 		if rec, ok := tApp.GetSwapKeeper().GetDepositorShares(ctx, A, swaptypes.PoolID(pair[0], pair[1])); ok && r.Chance(1, 2) {
 			sh = rec.SharesOwned.SubRaw(int64(r.Intn(2)))
@@ -544,6 +937,12 @@ func (w *World) GenTx(r *Rng, tApp app.TestApp, used map[int]bool) ([]byte, stri
 		desc = "swap.withdraw"
 	case 14:
 		dn := []string{"ukava", "busd"}[r.Intn(2)]
+		if w.Cfg.Wide != nil && r.Chance(1, 3) {
+			dn = w.Cfg.Wide.SavingsDenoms[r.Intn(len(w.Cfg.Wide.SavingsDenoms))]
+			if dn == "bkava" {
+				dn = "bkava-" + w.ValAddr.String()
+			}
+		}
 		if r.Chance(2, 3) {
 			m := savingstypes.NewMsgDeposit(A, cs(c(dn, amt(r, 1_000_000_000))))
 			msg, desc = &m, "savings.deposit"
@@ -563,6 +962,13 @@ func (w *World) GenTx(r *Rng, tApp app.TestApp, used map[int]bool) ([]byte, stri
 		if r.Chance(1, 3) {
 			dn, st = "busd", earntypes.STRATEGY_TYPE_SAVINGS
 		}
+		if vs := w.EarnVaults(); w.Cfg.Wide != nil && r.Chance(2, 3) {
+			v := vs[r.Intn(len(vs))]
+			dn, st = v.Denom, v.Strategy
+			if dn == "bkava" {
+				dn = "bkava-" + w.ValAddr.String()
+			}
+		}
 		if r.Chance(2, 3) {
 			msg, desc = earntypes.NewMsgDeposit(A.String(), c(dn, amt(r, 1_000_000_000)), st), "earn.deposit"
 		} else {
@@ -581,9 +987,27 @@ func (w *World) GenTx(r *Rng, tApp app.TestApp, used map[int]bool) ([]byte, stri
 		ts := w.Time.Unix()
 		hash := bep3types.CalculateRandomHash(secret[:], ts)
 		span := uint64(3 + r.Intn(10))
+		minSwap := int64(1001)
+		if w.Cfg.Wide != nil {
+			b := w.Cfg.Wide.Bep3
+			span = b.MinLock + uint64(r.Intn(int(b.MaxLock-b.MinLock)+1))
+			if r.Chance(1, 12) {
+				span = b.MaxLock + 1
+			}
+			minSwap = b.MinSwap
+		}
 		if r.Chance(1, 2) {
 			// outgoing: user -> deputy
-			m := bep3types.NewMsgCreateAtomicSwap(A.String(), w.Addrs[w.Deputy].String(), "0xrecipient", "0xsender", hash, ts, cs(c("bnb", 1001+amt(r, 1_000_000_000))), span)
+			out := minSwap + amt(r, 1_000_000_000)
+			if sup, ok := tApp.GetBep3Keeper().GetAssetSupply(ctx, "bnb"); ok && r.Chance(2, 3) { // within the available supply
+				if avail := sup.CurrentSupply.Amount.Sub(sup.OutgoingSupply.Amount); avail.IsPositive() && avail.IsInt64() {
+					out = 1 + r.Int63n(avail.Int64())
+					if r.Chance(1, 4) {
+						out = avail.Int64() + int64(r.Intn(2))
+					}
+				}
+			}
+			m := bep3types.NewMsgCreateAtomicSwap(A.String(), w.Addrs[w.Deputy].String(), "0xrecipient", "0xsender", hash, ts, cs(c("bnb", out)), span)
 			msg, desc = &m, "bep3.create.out"
 			id := bep3types.CalculateSwapID(hash, A, "0xsender")
 			w.Swaps = append(w.Swaps, bep3Swap{id, secret[:], u})
@@ -593,7 +1017,7 @@ func (w *World) GenTx(r *Rng, tApp app.TestApp, used map[int]bool) ([]byte, stri
 				return nil, ""
 			}
 			used[w.Deputy] = true
-			m := bep3types.NewMsgCreateAtomicSwap(w.Addrs[w.Deputy].String(), A.String(), "0xrecipient", "0xsender", hash, ts, cs(c("bnb", 1001+amt(r, 100_000_000))), span)
+			m := bep3types.NewMsgCreateAtomicSwap(w.Addrs[w.Deputy].String(), A.String(), "0xrecipient", "0xsender", hash, ts, cs(c("bnb", minSwap+amt(r, 100_000_000))), span)
 			id := bep3types.CalculateSwapID(hash, w.Addrs[w.Deputy], "0xsender")
 			w.Swaps = append(w.Swaps, bep3Swap{id, secret[:], u})
 			return w.Sign(tApp, w.Deputy, &m), "bep3.create.in"
@@ -604,7 +1028,19 @@ func (w *World) GenTx(r *Rng, tApp app.TestApp, used map[int]bool) ([]byte, stri
 			return nil, ""
 		}
 		s := w.Swaps[r.Intn(len(w.Swaps))]
-		if r.Chance(2, 3) {
+		wantOpen := r.Chance(2, 3)
+		if r.Chance(3, 4) { // prefer a swap in the state the message needs (open to claim, expired to refund)
+			var cands []bep3Swap
+			for _, x := range w.Swaps {
+				if sw, ok := tApp.GetBep3Keeper().GetAtomicSwap(ctx, x.ID); ok && (sw.Status == bep3types.SWAP_STATUS_OPEN) == wantOpen && sw.Status != bep3types.SWAP_STATUS_COMPLETED {
+					cands = append(cands, x)
+				}
+			}
+			if len(cands) > 0 {
+				s = cands[r.Intn(len(cands))]
+			}
+		}
+		if wantOpen {
 			sec := s.Secret
 			if r.Chance(1, 5) {
 				sec = tmbytes.HexBytes(strings.Repeat("a", 32))
@@ -623,7 +1059,10 @@ func (w *World) GenTx(r *Rng, tApp app.TestApp, used map[int]bool) ([]byte, stri
 		}
 		used[o] = true
 		market := []string{"bnb:usd", "xrp:usd", "kava:usd"}[r.Intn(3)]
-		base := map[string]string{"bnb:usd": w.Cfg.BnbPrice, "xrp:usd": w.Cfg.XrpPrice, "kava:usd": w.Cfg.KavaPrice}[market]
+		if w.Cfg.Wide != nil && r.Chance(1, 6) {
+			market = []string{"busd:usd", "usdx:usd", "hard:usd", "swp:usd"}[r.Intn(4)]
+		}
+		base := w.basePrice(market)
 		p := d(base).Mul(d([]string{"1.0", "0.9", "0.6", "0.35", "1.2", "1.000000000000000001"}[r.Intn(6)]))
 		exp := w.Time.Add(time.Duration(1+r.Intn(48)) * time.Hour)
 		return w.Sign(tApp, o, pricefeedtypes.NewMsgPostPrice(w.Addrs[o].String(), market, p, exp)), "pricefeed.post"
@@ -635,9 +1074,21 @@ func (w *World) GenTx(r *Rng, tApp app.TestApp, used map[int]bool) ([]byte, stri
 		}
 		a := auctions[r.Intn(len(auctions))]
 		var bid sdk.Coin
+		lateFwd := false
+		if r.Chance(1, 2) { // a forward collateral auction late in its life: convert it now
+			rev := tApp.GetAuctionKeeper().GetParams(ctx).ReverseBidDuration
+			for _, x := range auctions {
+				if ca, ok := x.(*auctiontypes.CollateralAuction); ok && !ca.IsReversePhase() && ca.HasReceivedBids && w.Time.Add(rev).After(ca.MaxEndTime) {
+					a, lateFwd = x, true
+					break
+				}
+			}
+		}
 		switch au := a.(type) {
 		case *auctiontypes.CollateralAuction:
-			if au.IsReversePhase() {
+			if lateFwd {
+				bid = au.MaxBid
+			} else if au.IsReversePhase() {
 				bid = sdk.NewCoin(au.Lot.Denom, au.Lot.Amount.MulRaw(int64(80+r.Intn(20))).QuoRaw(100))
 			} else {
 				bid = sdk.NewCoin(au.Bid.Denom, au.Bid.Amount.MulRaw(int64(100+r.Intn(30))).QuoRaw(100).AddRaw(int64(r.Intn(1000))))
@@ -707,7 +1158,7 @@ func (w *World) GenTx(r *Rng, tApp app.TestApp, used map[int]bool) ([]byte, stri
 			prop := committeetypes.NewCommitteeDeleteProposal("x", "y", 99)
 			_ = prop
 			var content committeetypes.PubProposal = govv1beta1.NewTextProposal("committee text", "nothing")
-			switch r.Intn(3) {
+			switch r.Intn(w.nProposalKinds()) {
 			case 0: // an upgrade plan a few blocks ahead: stale by the time the deciding vote arrives
 				content = upgradetypes.NewSoftwareUpgradeProposal("up", "plan", upgradetypes.Plan{Name: fmt.Sprintf("plan-%d", w.Height), Height: w.Height + int64(1+r.Intn(4))})
 			case 1: // a parameter change
@@ -720,7 +1171,11 @@ func (w *World) GenTx(r *Rng, tApp app.TestApp, used map[int]bool) ([]byte, stri
 			}
 			return w.Sign(tApp, signer, m), "committee.submit"
 		}
-		return w.Sign(tApp, signer, committeetypes.NewMsgVote(w.Addrs[signer], uint64(1+r.Intn(3)), committeetypes.VOTE_TYPE_YES)), "committee.vote"
+		pid := uint64(1 + r.Intn(3))
+		if props := tApp.GetCommitteeKeeper().GetProposals(ctx); len(props) > 0 && r.Chance(4, 5) {
+			pid = props[r.Intn(len(props))].ID
+		}
+		return w.Sign(tApp, signer, committeetypes.NewMsgVote(w.Addrs[signer], pid, committeetypes.VOTE_TYPE_YES)), "committee.vote"
 	default: // issuance by the asset owner (user 1) or an impostor
 		if u != 1 && !used[1] && r.Chance(1, 2) {
 			delete(used, u)
@@ -745,6 +1200,47 @@ func (w *World) GenTx(r *Rng, tApp app.TestApp, used map[int]bool) ([]byte, stri
 		return nil, ""
 	}
 	return w.Sign(tApp, u, msg), desc
+}
+
+func (w *World) basePrice(market string) string {
+	switch market {
+	case "bnb:usd":
+		return w.Cfg.BnbPrice
+	case "xrp:usd":
+		return w.Cfg.XrpPrice
+	case "kava:usd":
+		return w.Cfg.KavaPrice
+	case "hard:usd":
+		return "0.25"
+	case "swp:usd":
+		return "0.1"
+	}
+	return "1.0"
+}
+
+func (w *World) nProposalKinds() int { return 3 }
+
+// maxDebt returns the largest principal (in usdx base units) that keeps `collateral` base units
+// of the collateral type at its liquidation ratio under the current spot price.
+func (w *World) maxDebt(tApp app.TestApp, ctx sdk.Context, ctype string, collateral int64) (int64, bool) {
+	cp, ok := tApp.GetCDPKeeper().GetCollateral(ctx, ctype)
+	if !ok {
+		return 0, false
+	}
+	price, err := tApp.GetPriceFeedKeeper().GetCurrentPrice(ctx, cp.SpotMarketID)
+	if err != nil || !price.Price.IsPositive() {
+		return 0, false
+	}
+	v := sdk.NewDec(collateral).Mul(price.Price).Quo(cp.LiquidationRatio) // collateral units worth of usd, per ratio
+	scale := sdk.NewDec(1)
+	for i := int64(0); i < cp.ConversionFactor.Int64(); i++ {
+		scale = scale.MulInt64(10)
+	}
+	lim := v.Quo(scale).MulInt64(1_000_000).TruncateInt()
+	if !lim.IsInt64() || lim.Int64() > 1_000_000_000_000 {
+		return 1_000_000_000_000, true
+	}
+	return lim.Int64(), true
 }
 
 // InvalidBasicTx returns a properly signed transaction whose message fails ValidateBasic.
@@ -774,6 +1270,16 @@ func (w *World) GenBlockTxsFiltered(r *Rng, tApp app.TestApp, n int, basicValidO
 	used := map[int]bool{}
 	var txs [][]byte
 	var descs []string
+	if w.Cfg.Wide != nil && r.Chance(1, 7) { // a price move agreed by every oracle (a single post only shifts the median)
+		market := []string{"bnb:usd", "xrp:usd", "kava:usd", "busd:usd", "hard:usd"}[r.Pick(4, 4, 3, 1, 1)]
+		p := d(w.basePrice(market)).Mul(d([]string{"1.0", "0.8", "0.5", "0.3", "0.1", "1.5", "3"}[r.Intn(7)]))
+		exp := w.Time.Add(time.Duration(1+r.Intn(72)) * time.Hour)
+		for _, o := range w.Oracles {
+			used[o] = true
+			txs = append(txs, w.Sign(tApp, o, pricefeedtypes.NewMsgPostPrice(w.Addrs[o].String(), market, p, exp)))
+			descs = append(descs, "pricefeed.post")
+		}
+	}
 	for i := 0; i < n; i++ {
 		bz, desc := w.GenTx(r, tApp, used)
 		if bz == nil {
@@ -786,6 +1292,35 @@ func (w *World) GenBlockTxsFiltered(r *Rng, tApp app.TestApp, n int, basicValidO
 		}
 		txs = append(txs, bz)
 		descs = append(descs, desc)
+	}
+	if w.ParamChanges && r.Chance(1, 2) { // a member votes: the newest proposal of this block, else a pending one
+		signer := w.Member
+		if used[signer] {
+			signer = 0
+		}
+		if !used[signer] {
+			ctx := tApp.NewContext(false, tmproto.Header{Height: w.Height, Time: w.Time})
+			submitted := uint64(0)
+			for _, dsc := range descs {
+				if strings.HasPrefix(dsc, "committee.submit") && !strings.HasSuffix(dsc, "(corrupt)") {
+					submitted++
+				}
+			}
+			next, err := tApp.GetCommitteeKeeper().GetNextProposalID(ctx)
+			props := tApp.GetCommitteeKeeper().GetProposals(ctx)
+			pid := uint64(0)
+			switch {
+			case err == nil && submitted > 0:
+				pid = next + submitted - 1
+			case len(props) > 0:
+				pid = props[r.Intn(len(props))].ID
+			}
+			if pid > 0 {
+				used[signer] = true
+				txs = append(txs, w.Sign(tApp, signer, committeetypes.NewMsgVote(w.Addrs[signer], pid, committeetypes.VOTE_TYPE_YES)))
+				descs = append(descs, "committee.vote")
+			}
+		}
 	}
 	return txs, descs
 }
@@ -806,6 +1341,61 @@ func NextGap(r *Rng) time.Duration {
 	default:
 		return time.Duration(1 + r.Intn(1_000_000_000))
 	}
+}
+
+// NextGapAware is NextGap, except that one time in three (when the state has any) the next block
+// lands at or next to an instant at which a blocker changes behaviour: an auction's EndTime or
+// MaxEndTime, the last ReverseBidDuration before a MaxEndTime, the end of an incentive reward
+// period or of a kavadist period.
+func NextGapAware(r *Rng, tApp app.TestApp, height int64, t time.Time) time.Duration {
+	gap := NextGap(r)
+	if !r.Chance(1, 3) {
+		return gap
+	}
+	ctx := tApp.NewContext(true, tmproto.Header{Height: height, Time: t, ChainID: app.TestChainId})
+	var instants []time.Time
+	add := func(x time.Time) {
+		if x.After(t) && x.Before(t.Add(60*24*time.Hour)) {
+			instants = append(instants, x)
+		}
+	}
+	rev := tApp.GetAuctionKeeper().GetParams(ctx).ReverseBidDuration
+	for _, a := range tApp.GetAuctionKeeper().GetAllAuctions(ctx) {
+		add(a.GetEndTime())
+		add(a.GetMaxEndTime())
+		add(a.GetMaxEndTime().Add(-rev / 2))
+		add(a.GetMaxEndTime().Add(-rev))
+	}
+	ip := tApp.GetIncentiveKeeper().GetParams(ctx)
+	for _, p := range ip.USDXMintingRewardPeriods {
+		add(p.End)
+	}
+	for _, p := range ip.HardBorrowRewardPeriods {
+		add(p.End)
+	}
+	for _, p := range ip.HardSupplyRewardPeriods {
+		add(p.End)
+	}
+	for _, p := range tApp.GetKavadistKeeper().GetParams(ctx).Periods {
+		add(p.Start)
+		add(p.End)
+	}
+	for _, p := range tApp.GetKavadistKeeper().GetParams(ctx).InfrastructureParams.InfrastructurePeriods {
+		add(p.Start)
+		add(p.End)
+	}
+	for _, p := range tApp.GetCommitteeKeeper().GetProposals(ctx) {
+		add(p.Deadline)
+	}
+	if len(instants) == 0 {
+		return gap
+	}
+	x := instants[r.Intn(len(instants))]
+	off := []time.Duration{0, -time.Nanosecond, time.Nanosecond, -time.Second, time.Second, -time.Duration(1 + r.Intn(1_000_000_000))}[r.Intn(6)]
+	if g := x.Add(off).Sub(t); g > 0 {
+		return g
+	}
+	return gap
 }
 
 // ---------------------------------------------------------------- block execution
@@ -856,6 +1446,11 @@ func Begin(tApp app.TestApp, height int64, t time.Time) (sum string, pnc string)
 
 // Deliver runs the transactions, EndBlock and Commit.
 func Deliver(tApp app.TestApp, height int64, txs [][]byte) (out BlockResult) {
+	return DeliverC(tApp, height, txs, nil)
+}
+
+// DeliverC is Deliver with event counting.
+func DeliverC(tApp app.TestApp, height int64, txs [][]byte, cnt *Counters) (out BlockResult) {
 	out.Height = height
 	defer func() {
 		if r := recover(); r != nil {
@@ -865,8 +1460,12 @@ func Deliver(tApp app.TestApp, height int64, txs [][]byte) (out BlockResult) {
 	for _, bz := range txs {
 		r := tApp.DeliverTx(abci.RequestDeliverTx{Tx: bz})
 		out.Txs = append(out.Txs, TxResult{Code: r.Code, Codespace: r.Codespace, GasUsed: r.GasUsed, EventsSum: eventsDigest(r.Events), Log: firstLine(r.Log, r.Code)})
+		if r.Code == 0 {
+			CountEvents(cnt, "tx", r.Events)
+		}
 	}
 	eb := tApp.EndBlock(abci.RequestEndBlock{Height: height})
+	CountEvents(cnt, "end", eb.Events)
 	out.EndSum = eventsDigest(eb.Events)
 	var vu []string
 	for _, v := range eb.ValidatorUpdates {
@@ -879,10 +1478,17 @@ func Deliver(tApp app.TestApp, height int64, txs [][]byte) (out BlockResult) {
 	return out
 }
 
+// x/bep3 formats an sdkmath.Int with %d ("amount {824713463328} outside range"): the braces hold
+// the address of the big.Int, which differs between processes and replicas.  The log of a
+// failed transaction is not consensus data; the host-dependent part is masked before any
+// comparison.
+var ptrInLog = regexp.MustCompile(`\{[0-9]+\}`)
+
 func firstLine(s string, code uint32) string {
 	if code == 0 {
 		return ""
 	}
+	s = ptrInLog.ReplaceAllString(s, "{ptr}")
 	if i := strings.IndexByte(s, '\n'); i >= 0 {
 		s = s[:i]
 	}
